@@ -240,6 +240,8 @@ var c19Splices = [][2]string{
 	{"{{ \"", "\" }}y"},
 	{"{{ 1 }}", "@if(x)z@end"},
 	{"@component(\"c\")@slot", "(\"n\")x@end@end"},
+	{"abc{{--", ""},
+	{"a\n{{ 1 }}{{--", " open"},
 	{"@if", "(x)y@end"},
 	{"@each", "(v in a)y@end"},
 }
